@@ -882,10 +882,16 @@ def run_stress(spec, acc):
                         if ck == 'SystemClock':
                             now = main.elapsed_time()
                             t = (int(now * 25) + rng.randint(1, 4)) / 25.0
+                            if rng.random() < 0.2:
+                                # a time point at or just behind the present: due at
+                                # once, at the logical time that was asked for
+                                t = now + rng.choice([-0.01, -0.001, 0.0, 0.0005])
                             h.do_sched(c, 'abs', t, plan, kind, ('thread', wi))
                         else:
                             b = c.elapsed_beats()
                             t = (int(b * 8) + rng.randint(1, 6)) / 8.0
+                            if rng.random() < 0.2:
+                                t = b + rng.choice([-0.02, -0.001, 0.0, 0.001])
                             h.do_sched(c, 'abs', t, plan, kind, ('thread', wi),
                                        ahead=t - b)
                     elif kind == 'rout' and rng.random() < 0.3 and ck != 'TempoClock':
